@@ -1590,24 +1590,98 @@ pub fn oracle_c08(scn: &E2Scn, d: &D2, out: &RunOut, stats: &mut Stats) -> Vec<V
     vs
 }
 
-e2_check!(
-    C08,
-    "C08",
-    80_000,
-    10_000_000,
-    |rng: &mut Rng, _idx: u64| gen_quit(rng),
-    |scn: &E2Scn, d: &D2, out: &RunOut, stats: &mut Stats| oracle_c08(scn, d, out, stats),
-    vec![
-        "probe:graceful-quit",
-        "probe:abort-quit",
-        "probe:quit-in-the-action-that-created-the-job",
-        "probe:handle-clone-held-elsewhere",
-        "probe:quit-with-never-started-job",
-        "probe:quit-with-running-job",
-        "probe:quit-with-finished-job",
-        "probe:quit-with-armed-timer",
-        "probe:quit-with-pending-async-control",
-        "probe:quit-with-deleted-job",
-        "probe:grouped-command-with-grandchildren"
-    ]
-);
+// C08 = library-level quit scenarios (E2) + the CLI's interrupt / terminate path (E3)
+#[derive(Clone, Debug, serde::Serialize, serde::Deserialize, PartialEq, Eq, Hash)]
+pub enum C08Scn {
+    Lib(E2Scn),
+    Cli(crate::e3::E3Scn),
+}
+
+pub struct C08;
+
+impl Check for C08 {
+    type Scn = C08Scn;
+    fn property(&self) -> &'static str {
+        "C08"
+    }
+    fn engine(&self) -> &'static str {
+        "E2-wxsim + E3-clisim"
+    }
+    fn budget(&self, tier: Tier) -> u64 {
+        match tier {
+            Tier::Quick => 100_000,
+            Tier::Thorough => 10_000_000,
+        }
+    }
+    fn generate(&self, rng: &mut Rng, idx: u64, _tier: Tier) -> Option<C08Scn> {
+        Some(if idx % 5 == 4 {
+            let mut s = if idx % 10 == 9 { crate::p_e3::gen_cli_race(rng) } else { crate::p_e3::gen_cli(rng) };
+            // vary the instant of the final signal: sometimes right in the middle of the action
+            if rng.chance(1, 2) {
+                s.family = "cli-quit-early".into();
+            }
+            C08Scn::Cli(s)
+        } else {
+            C08Scn::Lib(gen_quit(rng))
+        })
+    }
+    fn execute(&self, scn: &C08Scn, policy: Policy, sched_seed: u64) -> RunOut {
+        match scn {
+            C08Scn::Lib(s) => e2::execute(s, policy, sched_seed),
+            C08Scn::Cli(s) => crate::e3::execute(s, policy, sched_seed),
+        }
+    }
+    fn check(&self, scn: &C08Scn, out: &RunOut, stats: &mut Stats) -> Vec<Violation> {
+        match scn {
+            C08Scn::Lib(s) => {
+                let d = digest2(out);
+                e2_stats(s, &d, stats);
+                oracle_c08(s, &d, out, stats)
+            }
+            C08Scn::Cli(s) => {
+                let d = crate::p_e3::digest3(out);
+                crate::p_e3::oracle_cli_quit(s, &d, out, stats)
+            }
+        }
+    }
+    fn shrink(&self, scn: &C08Scn) -> Vec<C08Scn> {
+        match scn {
+            C08Scn::Lib(s) => shrink_e2(s).into_iter().map(C08Scn::Lib).collect(),
+            C08Scn::Cli(s) => crate::p_e3::shrink_e3(s).into_iter().map(C08Scn::Cli).collect(),
+        }
+    }
+    fn nontrivial(&self, _scn: &C08Scn, out: &RunOut) -> bool {
+        out.hist.iter().any(|r| matches!(r.ev, Ev::Spawn { .. })) && out.hist.iter().any(|r| matches!(r.ev, Ev::MainEnd { .. }))
+    }
+    fn rule(&self) -> String {
+        "library level (4 of 5 runs): 0-3 jobs created by the action handler in states {never started, running, finished, mid graceful stop/restart with an armed timer, deleted but not collected, queued time-consuming controls, controls still arriving from a task holding a handle clone}, child reacting to the signal at once / late / never, with or without other process-group members, quit manner abort or graceful (signal, grace 0..10 s) requested at batch 0-2 incl. the action that created the job; CLI level (1 of 5): the real CLI handler under a generated argv, ended by SIGINT or SIGTERM through the signal source. Seeded PRNG and scheduling policy. distinct = distinct hash of the recorded history; non-trivial = at least one process was spawned and main ended".into()
+    }
+    fn required_probes(&self, _tier: Tier) -> Vec<&'static str> {
+        vec![
+            "probe:graceful-quit",
+            "probe:abort-quit",
+            "probe:quit-in-the-action-that-created-the-job",
+            "probe:handle-clone-held-elsewhere",
+            "probe:quit-with-never-started-job",
+            "probe:quit-with-running-job",
+            "probe:quit-with-finished-job",
+            "probe:quit-with-armed-timer",
+            "probe:quit-with-pending-async-control",
+            "probe:quit-with-deleted-job",
+            "probe:grouped-command-with-grandchildren",
+            "probe:cli-quit",
+            "probe:cli-quit-with-running-command",
+            "probe:cli-quit-during-graceful-restart",
+        ]
+    }
+    fn components(&self) -> Value {
+        let mut c = e2_components();
+        c["cli"] = crate::p_e3::e3_components();
+        c
+    }
+    fn assumptions(&self) -> Vec<String> {
+        let mut a = e2_assumptions();
+        a.push("process-group semantics are modelled: a group-directed signal or kill reaches the other members only when the ProcessGroup / ProcessSession wrapper is present on the spawned command; kill-on-drop kills the leader only; a leader that ends by itself leaves orphans nobody force-kills".into());
+        a
+    }
+}
